@@ -234,4 +234,6 @@ def main(argv):
 
 
 if __name__ == '__main__':
-    sys.exit(main(sys.argv[1:]))
+    # run through the importable module so that replayers register in one registry
+    from pgv import replay as _r
+    sys.exit(_r.main(sys.argv[1:]))
